@@ -5,6 +5,7 @@ package harness
 // real blocks, a multi-step history that random generation is unlikely to hit.
 
 import (
+	"reflect"
 	"fmt"
 	"math/rand"
 	"os"
@@ -777,5 +778,99 @@ func init() {
 			&ammtypes.MsgJoinPool{Sender: u.Addr.String(), PoolId: p.Id, MaxAmountsIn: maxIn, ShareAmountOut: math.ZeroInt()})
 		sc.stats[fmt.Sprintf("c05/joinSameDenomTwice/code=%d", code)]++
 		sc.Empty(5 * time.Second)
+	}
+}
+
+func init() {
+	// C18: every numeric field of every governance message the chain knows, ONE at a time, set to zero — the value most divisions, modulos
+	// and "every n blocks" schedules are written without (x % 0, x / 0, a loop that never advances). What validation refuses is skipped;
+	// what it lets through is applied the way a passed proposal is, and two blocks follow. The settings accumulate: whatever validation
+	// permits is a legal environment for the blocks after it.
+	scenarios["c18-every-numeric-parameter-at-zero"] = func(sc *Scn) {
+		w := sc.w
+		urls := make([]string, 0, len(c17Ctors))
+		for u := range c17Ctors {
+			urls = append(urls, u)
+		}
+		sort.Strings(urls)
+		build := func(u string) sdk.Msg {
+			var msg sdk.Msg
+			func() {
+				defer func() { _ = recover() }()
+				msg = c17Ctors[u](&c17Env{w: w, std: sc.std, ctx: w.Ctx(), other: w.Accts[3].Addr.String()}, w.Gov)
+			}()
+			return msg
+		}
+		numeric := func(l shockLeaf) bool {
+			if l.v.Type() == tDec || l.v.Type() == tInt {
+				return true
+			}
+			switch l.v.Kind() {
+			case reflect.Int64, reflect.Int32, reflect.Int, reflect.Uint64, reflect.Uint32:
+				return true
+			}
+			return false
+		}
+		for _, u := range urls {
+			if !strings.Contains(u, "Params") && !strings.Contains(u, "Param") {
+				continue // parameter updates only: the other governance messages create or remove objects
+			}
+			probe := build(u)
+			if probe == nil {
+				continue
+			}
+			var leaves []shockLeaf
+			shockLeaves(reflect.ValueOf(probe), "", &leaves, 0)
+			for li := range leaves {
+				if !numeric(leaves[li]) || !sc.ok {
+					continue
+				}
+				msg := build(u) // a fresh message from the current parameters: only this one field differs
+				if msg == nil {
+					continue
+				}
+				var ls []shockLeaf
+				shockLeaves(reflect.ValueOf(msg), "", &ls, 0)
+				if li >= len(ls) || ls[li].path != leaves[li].path {
+					continue
+				}
+				l := ls[li]
+				switch {
+				case l.v.Type() == tDec:
+					l.v.Set(reflect.ValueOf(math.LegacyZeroDec()))
+				case l.v.Type() == tInt:
+					l.v.Set(reflect.ValueOf(math.ZeroInt()))
+				case l.v.Kind() == reflect.Uint64 || l.v.Kind() == reflect.Uint32:
+					l.v.SetUint(0)
+				default:
+					l.v.SetInt(0)
+				}
+				valid := true
+				if vb, ok := msg.(sdk.HasValidateBasic); ok {
+					func() {
+						defer func() {
+							if recover() != nil {
+								valid = false
+							}
+						}()
+						if vb.ValidateBasic() != nil {
+							valid = false
+						}
+					}()
+				}
+				if !valid {
+					sc.stats["c18/zero/refusedByValidation"]++
+					continue
+				}
+				if !govApply(w, msg) {
+					sc.stats["c18/zero/refusedByHandler"]++
+					continue
+				}
+				sc.stats["c18/zero/applied"]++
+				sc.stats["c18/zero/applied/"+strings.TrimPrefix(u, "/elys.")+l.path]++
+				sc.Empty(5 * time.Second)
+				sc.Empty(5 * time.Second)
+			}
+		}
 	}
 }
